@@ -36,3 +36,8 @@ def extra_checks(tier, seed):
     return {}
 def finding_key(name, small, f):
     return name
+
+# coverage-guided exploration (bin/explore.py): None = off; dict(ops=operations that may be mutated / duplicated / removed,
+# mtu=True to vary the MTU of cfg lines inside [576,9216], skip=regex of scenario names whose oracle depends on their exact shape)
+EXPLORE = None
+EXPLORE_SECONDS = (10, 180)     # quick, thorough
